@@ -1,5 +1,5 @@
 SPECIFICATION Spec
-CONSTANTS NInit = 2 MaxAdd = 2
+CONSTANTS NInit = 2 MaxAdd = 2 NClients = 2 MaxCancel = 1
 INVARIANT NeverEarly
 PROPERTY EventuallyDone
 CHECK_DEADLOCK FALSE
